@@ -1380,6 +1380,12 @@ class Parallel(Logger):
         return self
 
     def __exit__(self, exc_type, exc_value, traceback):
+        # A generator finalised by another thread leaves the end of its run
+        # to a helper thread: let it finish, both would abort the backend.
+        exit_thread = self._detached_exit_thread
+        if exit_thread is not None and exit_thread is not threading.current_thread():
+            exit_thread.join()
+            self._detached_exit_thread = None
         self._managed_backend = False
         if self.return_generator and self._calling:
             self._abort()
